@@ -71,7 +71,8 @@ theorem step_findProp (s : State) (op : Op) (hne : ∀ dt stk, op ≠ .endBlock 
     simp only [step, Model.C15.ofExcept]
     split
     · rename_i s' h
-      unfold vote at h
+      rw [vote_eq] at h
+      unfold voteSpec at h
       split at h
       · cases h
       · split at h
@@ -119,7 +120,7 @@ theorem step_findProp (s : State) (op : Op) (hne : ∀ dt stk, op ≠ .endBlock 
         · simp [hid]
     · exact Or.inl rfl
   | cancel pid' who =>
-    simp only [step, Model.C15.ofExcept]
+    simp only [step, Model.C15.ofExcept, cancelRun_eq]
     split
     · rename_i s' h
       unfold cancel at h
@@ -150,7 +151,8 @@ theorem step_findProp (s : State) (op : Op) (hne : ∀ dt stk, op ≠ .endBlock 
     simp only [step, Model.C15.ofExcept]
     split
     · rename_i s' h
-      unfold submit at h
+      rw [submit_eq] at h
+      unfold submitSpec at h
       split at h
       · cases h
       · rename_i hchk
@@ -235,7 +237,8 @@ theorem dropInactive_same {s s' : State} {id : Nat} (h1 : inactiveSettleShapeOk 
   obtain ⟨t, ht⟩ := hq
   obtain ⟨p0, hp0, _, _⟩ := ha.both.q.inactSound t id ht
   have key : s'.props = dropProp s.props id ∧ s'.time = s.time ∧ s'.params = s.params := by
-    unfold dropInactive at hs'
+    rw [dropInactive_eq] at hs'
+    unfold dropInactiveSpec at hs'
     simp only [hp0, h1, if_true] at hs'
     split at hs'
     · have sp := refundDeposits_spec (by simpa using ha.inv.bal) hs'
@@ -269,6 +272,7 @@ theorem finishTally_shape {s s' : State} {pid : Nat} {p : Proposal} {passes burn
     ∃ q, findProp s'.props pid = some q ∧ Ended s p q passes := by
   have hpid : p.id = pid := findProp_id hp
   unfold finishTally at h
+  simp only [refundRun_eq, burnRun_eq] at h
   simp only [h2, Bool.not_true, Bool.false_and, Bool.false_eq_true, if_false] at h
   simp only [if_true] at h
   have settle : ∀ s1 : State,
